@@ -7,6 +7,8 @@
    stream) through the write-point gates.  A step blocked by a lock is simply not realisable - fine.
    Verdict: an independent reference reader cuts the recorded byte stream; it must recover exactly
    the messages written, each parseable on its own.
+   Also the stdio CLIENT's frames: requests, result answers and error answers to server-issued requests are written
+   concurrently to a scripted child that records every byte it reads; the same reference reader cuts the record.
 3. Binding B: chunk logs (one event per Write call reaching the stream) of the replays and of
    ungated stress runs (stdio, GET stream, legacy SSE; payload sizes across pipe/bufio boundaries,
    CR/LF/U+2028 in payloads) are validated by TLC against TraceFraming."""
@@ -218,6 +220,33 @@ def run(tier, replay=None):
             run_.nontriv(["stress", r["id"]])
             items.append((r["id"], classify_chunks(r["stream"], r["chunks"])))
             byid[r["id"]] = rp
+    # the stdio CLIENT's own frames (requests, result answers and error answers written to the child's stdin concurrently):
+    # the child records every byte it reads; the reference reader cuts the record into lines
+    cin = {"runs": [{"id": "cl%d" % k, "workers": w, "calls": c, "pad": pad}
+                    for k, (w, c, pad) in enumerate([(3, 6, 70000), (4, 5, 300)] + ([(6, 10, 5000), (2, 12, 200000)] if tier == "thorough" else []))]}
+    cout = common.run_harness_json(["c09client"], cin, timeout=600, crash_ok=True)
+    if "_crash" in cout:
+        run_.diverge("process-crash", "the client process crashed while writing concurrently:\n%s" % cout["_crash"][:1200], {"cmd": ["c09client"], "input": cin})
+    else:
+        for r in cout["results"]:
+            run_.evaluations += 1
+            rp = {"cmd": ["c09client"], "input": {"runs": [x for x in cin["runs"] if x["id"] == r["id"]]}, "spec": "Framing (reference reader)"}
+            if r.get("broken"):
+                raise common.Broken("stdio client run %s: %s" % (r["id"], r["broken"]))
+            lines = [l for l in r["raw"].split("\n") if l != ""]
+            bad = []
+            for l in lines:
+                try:
+                    if not isinstance(json.loads(l), dict):
+                        bad.append(l)
+                except ValueError:
+                    bad.append(l)
+            if bad:
+                run_.diverge("stream=stdio-client frame-not-a-message", "a line the stdio client wrote is not one JSON message: %r" % bad[0][:300], rp)
+            elif len(lines) != r["expected"] or not r["raw"].endswith("\n"):
+                run_.diverge("stream=stdio-client message-count", "the stdio client wrote %d lines, %d messages were due (last byte %r)"
+                             % (len(lines), r["expected"], r["raw"][-1:]), rp)
+            run_.nontriv(["stdio-client", r["id"]])
     rej = validate_chunk_logs(run_, items, byid)
     for tid, (hwm, line) in rej.items():
         run_.diverge("chunk-log-rejected stream=%s" % tid.rstrip("0123456789_"),
